@@ -183,3 +183,62 @@ def time_plus(t: int, amount: int, unit_ns: int) -> int:
 def ldt_plus(day: int, t: int, total_ns: int):
     """(day number, ns of day) after adding total_ns nanoseconds on the local timeline"""
     return divmod(day * NS_DAY + t + total_ns, NS_DAY)
+
+
+# numeric-tower boundaries: where C ints, doubles and Python's int->str conversion stop being "just an int" -----------
+TOWER = (2 ** 31, 2 ** 32, 2 ** 53, 2 ** 63, 2 ** 64, 2 ** 1023, 2 ** 1024, 10 ** 400)
+STR_LIMIT_POW10 = 4301          # 10**4301 has 4302 digits: beyond sys.get_int_max_str_digits() (4300)
+
+
+def tower(neighbours=True):
+    """+/- every tower boundary (and +/-1 around it when neighbours)"""
+    out = []
+    for b in TOWER:
+        for d in ((-1, 0, 1) if neighbours else (0,)):
+            out.append(b + d)
+            out.append(-(b + d))
+    return out
+
+
+_POW10 = {400: 10 ** 400, STR_LIMIT_POW10: 10 ** STR_LIMIT_POW10}
+_POW2 = {1023: 2 ** 1023, 1024: 2 ** 1024}
+_E30 = 10 ** 30
+_T100 = 2 ** 100
+
+
+def show(n) -> str:
+    """text of an int that never trips the int->str digit limit (the harness must not depend on that limit either)"""
+    if not isinstance(n, int) or n.bit_length() <= 1024:
+        return str(n)
+    for e in (400, STR_LIMIT_POW10):
+        q, r = divmod(abs(n), _POW10[e])
+        if r.bit_length() <= 200 and q.bit_length() <= 200:
+            return "%s(%d*10**%d+%d)" % ("-" if n < 0 else "", q, e, r)
+        q, r = divmod(abs(n) + _E30, _POW10[e])          # just below a multiple
+        if q.bit_length() <= 200 and r < _E30:
+            return "%s(%d*10**%d-%d)" % ("-" if n < 0 else "", q, e, _E30 - r)
+    for e in (1023, 1024):
+        q, r = divmod(abs(n), _POW2[e])
+        if r.bit_length() <= 200 and q.bit_length() <= 200:
+            return "%s(%d*2**%d+%d)" % ("-" if n < 0 else "", q, e, r)
+        q, r = divmod(abs(n) + _T100, _POW2[e])
+        if q.bit_length() <= 200 and r < _T100:
+            return "%s(%d*2**%d-%d)" % ("-" if n < 0 else "", q, e, _T100 - r)
+    return "<int of %d bits>" % n.bit_length()
+
+
+def enc(n):
+    """JSON-safe form of an int of any size: the int itself, or {'expr': text understood by dec()}"""
+    if not isinstance(n, int) or n.bit_length() <= 8000:
+        return n
+    return {"expr": show(n)}
+
+
+def dec(x):
+    import re
+    if isinstance(x, dict) and "expr" in x:
+        s = x["expr"]
+        if not re.fullmatch(r"[0-9*+\-() ]+", s):
+            raise ValueError("not an integer expression: %r" % s[:60])
+        return int(eval(s, {"__builtins__": {}}, {}))      # digits and + - * ( ) only
+    return x
